@@ -109,10 +109,14 @@ def bet_block(args):
         nm, C, sigma = eng.real('n_m', positive=True), eng.real('C', positive=True), eng.real('sigma', positive=True)
         eng.assume(C > 1)
         ps = _pressures(eng, n)
-        ns = [nm * C * p / ((1 - p) * (1 - p + C * p)) for p in ps]  # BET equation
+        if lim == 'auto_any':
+            # arbitrary positive loadings: the Rouquerol window logic must hold for any data, not only BET-shaped ones
+            ns = [eng.real(f'n{i}', positive=True) for i in range(n)]
+        else:
+            ns = [nm * C * p / ((1 - p) * (1 - p + C * p)) for p in ps]  # BET equation
         lo = eng.real('lo', positive=True) if lim in ('both', 'lo') else None
         hi = eng.real('hi', positive=True) if lim in ('both', 'hi') else None
-        limits = None if lim == 'auto' else (lo, hi)
+        limits = None if lim in ('auto', 'auto_any') else (lo, hi)
         try:
             res = AB.area_BET_raw(_arr(ps), _arr(ns), sigma, limits)
             out = 'return'
@@ -124,7 +128,7 @@ def bet_block(args):
             out = f"other:{type(exc).__name__}: {str(exc)[:80]}"
         x = {'replay': replay, 'observed': out}
         eng.prove(f"{base}/raises.only_CalculationError/{cfg}", out in ('return', 'CalculationError'), extra=x)
-        if lim != 'auto':
+        if lim not in ('auto', 'auto_any'):
             inside = [sx.And(*([p > lo] if lo is not None else []) + ([p < hi] if hi is not None else [])) for p in ps]
             n_inside = sum((sx.SymBool(sx._b(c))._r() for c in inside[1:]), sx.SymBool(sx._b(inside[0]))._r())
             if out == 'CalculationError':
@@ -134,13 +138,11 @@ def bet_block(args):
                 eng.prove(f"{base}/window.refuses_only_with_fewer_than_three_points/{cfg}", n_inside < 3, extra=x)
                 return
         if out != 'return':
-            if lim == 'auto':
-                return
             return
         (area, c_const, n_mono, p_mono, slope, intercept, minimum, maximum, corr) = res
         minimum, maximum = int(minimum), int(maximum)
         eng.prove(f"{base}/window.at_least_three_points/{cfg}", maximum - minimum + 1 >= 3, extra=x)
-        if lim != 'auto':
+        if lim not in ('auto', 'auto_any'):
             eng.prove(f"{base}/window.points_inside_limits_selected_outside_not/{cfg}", _window_ok(eng, ps, lo, hi, minimum, maximum), extra=x)
         else:
             roq = [ns[i] * (1 - ps[i]) for i in range(n)]
@@ -157,6 +159,8 @@ def bet_block(args):
             eng.prove(f"{base}/window.starts_at_one_tenth_of_end_pressure/{cfg}", start_ok, extra=x)
         eng.prove(f"{base}/fit.uses_exactly_the_window/{cfg}", len(stat.calls) == 1 and len(stat.calls[0]['x']) == maximum - minimum + 1
                   and all(a is b for a, b in zip(stat.calls[0]['x'], ps[minimum:maximum + 1])), extra=x)
+        if lim == 'auto_any':
+            return
         eng.prove(f"{base}/bet.exact_fit_recognised/{cfg}", stat.calls and stat.calls[0]['exact'], extra=x)
         eng.prove(f"{base}/bet.recovers_C/{cfg}", sx.eq(c_const, C), extra=x)
         eng.prove(f"{base}/bet.recovers_monolayer_capacity/{cfg}", sx.eq(n_mono, nm), extra=x)
@@ -452,6 +456,7 @@ def run(rep):
         for lim in ('both', 'lo', 'hi', 'auto'):
             jobs.append(('bet', (n, lim)))
             jobs.append(('lang', (n, lim)))
+        jobs.append(('bet', (n + 1, 'auto_any')))
         jobs.append(('tplot', (n,)))
         jobs.append(('da', (n,)))
         jobs.append(('limits', (n,)))
